@@ -300,7 +300,7 @@ theorem handle_noSwap (s s' : Sys) (m : Msg) (ms : List Msg) (hx : s.handle m = 
   | bsei s1 sender funds tm _ _ hx' _ _ _ _ _ => exact bseiExec_noSwap _ _ _ _ _ _ _ _ _ hx'
   | stsei blk sender funds tm _ hx' _ _ _ _ _ => exact stseiExec_noSwap _ _ _ _ _ _ _ _ hx'
   | reward s1 sender funds rm _ _ _ _ hx' _ _ _ _ _ => exact rewardExec_noSwap _ _ _ _ _ _ _ _ _ hx'
-  | disp env sender funds dm _ hx' _ _ _ _ _ => exact dispExec_noSwap _ _ _ _ _ _ _ hx'
+  | disp env sender funds dm _ _ _ hx' _ _ _ _ _ => exact dispExec_noSwap _ _ _ _ _ _ _ hx'
   | reg s1 sender funds rm _ _ _ _ hx' _ _ _ _ _ => exact regExec_noSwap _ _ _ _ _ hx'
 
 end Krp
